@@ -14,6 +14,9 @@
 // field; the written EncryptedKeyset must hold only the ciphertext plus type URL / status / id /
 // prefix type per key; reading back with the same key and associated data returns an equal
 // keyset, with another key, other associated data or a damaged ciphertext an error.
+// Part 3 (info.go): byte-level lines for the Lean model of KeysetInfo / keyset bytes.
+// Part 4 (ecshort.go): NIST-curve keys with leading zero bytes in foreign integer encodings.
+// Part 5 (big.go): keysets of many keys and of large serialized size.
 package main
 
 import (
@@ -53,6 +56,7 @@ type world struct {
 	breach  map[string]bool
 	scan    *scanner
 	written int
+	lite    bool // parts 4/5: gates only, no output part (outputs) for this keyset
 }
 
 // hex dumps the marshalled keyset; long dumps are cut in the message and written in full next to
@@ -240,7 +244,17 @@ func (w *world) gate(g *gen) {
 			continue
 		}
 		o.Count("ReadWithNoSecrets/" + r.name)
+		if rerr == nil && expectSecret(ks) {
+			o.Count("GATE-BREACH")
+			o.Count("GATE-BREACH/ReadWithNoSecrets(" + r.name + ")")
+			n := 0
+			if rh != nil {
+				n = rh.Len()
+			}
+			o.Violate("ReadWithNoSecrets(%s) accepted the serialization of a keyset with secret material (handle with %d of the %d keys); %s", r.name, n, len(ks.Key), ctx())
+		}
 		if got := kslib.HandleRes(rh, rerr); got != nres {
+			o.Count("READER-DISAGREES/" + r.name)
 			o.Violate("ReadWithNoSecrets(%s) decides %s, NewHandleWithNoSecrets decides %s; %s", r.name, got, nres, ctx())
 		}
 	}
@@ -316,6 +330,10 @@ func (w *world) gate(g *gen) {
 		if perr != nil || !proto.Equal(got, mat) {
 			o.Violate("WriteWithNoSecrets(%s) wrote something else than the keyset (%v); %s", wn, perr, ctx())
 		}
+	}
+	if w.lite {
+		o.Count("handles-gates-only")
+		return
 	}
 	w.outputs(h, mat, g)
 }
@@ -815,6 +833,20 @@ func main() {
 		}
 		w.keks = append(w.keks, kek{t.name, pair[0], pair[1]})
 	}
-	w.run()
-	w.utf8Lines()
+	// -mode ecshort | big (or VERIF_C13_MODE): only part 4 / part 5. These parts come last and draw
+	// from their own streams: the lines of parts 1-3 do not depend on them.
+	mode := *hlib.FlagMode
+	if mode == "" {
+		mode = os.Getenv("VERIF_C13_MODE")
+	}
+	if mode == "" {
+		w.run()
+		w.utf8Lines()
+	}
+	if mode == "" || mode == "ecshort" {
+		w.ecShortPass() // ecshort.go
+	}
+	if mode == "" || mode == "big" {
+		w.bigPass() // big.go
+	}
 }
